@@ -110,6 +110,17 @@ def removeBlock (s : TdfSt) (t : Nat) (now : Int) : TdfSt × Outcome :=
     let v3 := truncateAt v2 (old.off.toNat + tail.length)
     ({ s with view := v3, disk := v3, entries := kept ++ [fresh] }, .ok)
 
+/-- `[i for i in self.entries if i is not old_entry]` where `old_entry` is the first entry of that type -/
+def eraseFirst (p : Entry → Bool) : List Entry → List Entry
+  | [] => []
+  | e :: es => if p e then es else e :: eraseFirst p es
+
+/-- `any(i.type != unusedSlot for i in rest[firstUnused + 1:])`: a live entry behind the first unused slot -/
+def holeIn (rest : List Entry) : Bool :=
+  match firstUnused rest with
+  | none => false
+  | some p => (rest.drop (p + 1)).any (fun e => e.typ != 0)
+
 def replaceBlock (s : TdfSt) (b : BlkArg) (comment : Option Str) (now : Int) : TdfSt × Outcome :=
   match s.entries.find? (fun e => e.typ == b.typ) with
   | none => (s, .err .absent)
@@ -118,6 +129,8 @@ def replaceBlock (s : TdfSt) (b : BlkArg) (comment : Option Str) (now : Int) : T
     match checkArg b c now with
     | .error e => (s, .err e)
     | .ok _ =>
+      -- what add_block would refuse AFTER the old block is gone is refused before anything is touched
+      if holeIn (eraseFirst (fun e => e.typ == b.typ) s.entries) then (s, .err .hole) else
       match removeBlock s b.typ now with
       | (s1, .ok) => addBlock s1 b c now
       | (s1, .err e) => (s1, .err e)
